@@ -69,6 +69,8 @@ func c13(w *core.World, r *core.Report) {
 	r.Rule("R13.5", "replay-unit parser drops a decoded command only for documented reasons (all loop paths)", 1)
 	ruleUnitParserRemovals(w, r)
 
+	r.Rule("R13.9", "a stand-alone command on the tool's own keys is always a control command: only the namespace test can say otherwise", 1)
+	ruleControlCommandIsNamespace(w, r)
 	r.Rule("R13.7", "with bidirectional sync on, data reaches the target only through the marker writers: every unmarked replay path is entered only when bisyncEnabled() is false", 3)
 	ruleMarkerPathSelection(w, r)
 
@@ -703,4 +705,49 @@ func ruleNoBareWritesOnBisyncPaths(w *core.World, r *core.Report) {
 	if direct == 0 {
 		r.OK("bisync/no-bare-write", token.NoPos, "no direct command on the bidirectional paths")
 	}
+}
+
+// ---------------------------------------------------------------- R13.9 every command on the tool's own keys is a control command
+
+// ruleControlCommandIsNamespace: a stand-alone command (outside MULTI/EXEC) that
+// touches the tool's own key namespace is bookkeeping of the opposite link and is
+// skipped. isBisyncControlCommand may answer "not a control command" only when
+// the namespace test itself said so: an exemption for one kind of key (for
+// instance the marker, "which only ever opens a mirrored transaction") forwards
+// that key whenever the master propagates it alone — a Redis 7 master unwraps a
+// transaction in which only one command took effect.
+func ruleControlCommandIsNamespace(w *core.World, r *core.Report) {
+	f := fn(w, r, "syncer.isBisyncControlCommand")
+	if f == nil {
+		return
+	}
+	isNs := func(v ssa.Value) bool {
+		c, ok := core.Unwrap(v).(*ssa.Call)
+		return ok && strings.HasSuffix(core.ResolveCall(c).Name, "syncer.touchesBisyncNamespace")
+	}
+	bad := ""
+	var pos token.Pos = f.Pos()
+	n := 0
+	okEnum := core.EnumPathsN(f.Blocks[0], 0, 100000, 1, func(p *core.Path) {
+		ret, isRet := p.End.(*ssa.Return)
+		if !isRet || ret.Parent() != f || len(ret.Results) != 1 || bad != "" {
+			return
+		}
+		n++
+		val, known := p.Eval(ret.Results[0])
+		if b, isC := core.ConstBool(p.Resolve(ret.Results[0])); isC {
+			val, known = b, true
+		}
+		if known && val {
+			return
+		}
+		if !pathAssumed(p, isNs, false) {
+			bad, pos = "the command is answered 'not a control command' on a path on which the namespace test did not say so: a command on the tool's own keys that reaches the stream alone is forwarded to the other site", ret.Pos()
+		}
+	})
+	if !okEnum {
+		r.Undecided("isBisyncControlCommand/namespace-decides", f.Pos(), "too many paths")
+		return
+	}
+	r.Check(bad == "" && n > 0, "isBisyncControlCommand/namespace-decides", pos, "%s", bad)
 }
